@@ -9,6 +9,10 @@ def run(ctx):
     fb = ctx.fb()
     res = Result("C05")
     m = D.DecodeModel(fb)
+    res.rule("C05-R8", "a segment ends the walk over its frame: every loop path that handled a first or continuation segment leaves the message loop, so "
+                        "frame padding behind a segment is never parsed (its rejection would erase the entry just opened or extended)")
+    res.rule("C05-R9", "the entry stores and compares the frame's own version, message type and sequence counter at full width: matching CmpHeader getter, "
+                        "passed unchanged from this frame, through parameters and members at least as wide as the header field")
     res.rule("C05-R1", "keyed state: every use of the reassembly table is keyed by {getDeviceId(), getStreamId()} of this call's frame header")
     res.rule("C05-R2", "key equality compares both components; hash reads key fields only")
     res.rule("C05-R3", "modular successor: the sequence-counter comparison is evaluated in 16-bit arithmetic (65535 -> 0 wraps)")
@@ -29,6 +33,10 @@ def run(ctx):
     D.rule_accept_guard(res, "C05-R5", m)
     D.rule_deliver_release(res, "C05-R6", m)
     D.rule_reject_reasons(res, "C05-R7", m)
+    n8 = D.rule_segment_ends_walk(res, "C05-R8", m)
+    D.rule_segment_plumbing(res, "C05-R9", m)
+    res.floor("C05-R8", 3, n8)
+    res.floor("C05-R9", 12)
     res.floor("C05-R1", 5)  # one keyed operation per protocol case that touches the table
     res.floor("C05-R3", 1)
     res.floor("C05-R4", 2, n4)
